@@ -173,6 +173,57 @@ Definition do_parse (j : json) : json :=
   | None => jerr "bad parse job"
   end.
 
+(* the signature elements the consistency rules compare, for reports and coverage counting *)
+Definition json_of_pe (e : psv_elem) : json :=
+  JObj [("rows", JNum (pe_rows e)); ("start_row", JNum (pe_start_row e)); ("cols", JNum (pe_cols e)); ("start_col", JNum (pe_start_col e));
+        ("allocated", JBool (pe_alloc e)); ("kind", JNum (pe_kind e)); ("ctype", JNum (pe_ctype e)); ("semidx", JNum (pe_semidx e));
+        ("stream", JNum (pe_stream e))].
+
+Definition json_of_se (e : sig_elem) : json :=
+  JObj [("stream", JNum (se_stream e)); ("semidx", JNum (se_semidx e)); ("sysval", JNum (se_sysval e)); ("ctype", JNum (se_ctype e));
+        ("reg", JNum (se_reg e)); ("mask", JNum (se_mask e))].
+
+Definition json_of_sigs (ps : list part) : json :=
+  let els fc := match find_part fc ps with Some p => JArr (map json_of_se (sig_part_elems (p_data p))) | None => JNull end in
+  match find_part FourCC_PSV0 ps with
+  | Some pv =>
+    let s := psv_sigs_of (p_data pv) in
+    JObj [("vin", JNum (ps_vin s)); ("vouts", jnums (ps_vouts s));
+          ("ins", JArr (map json_of_pe (ps_ins s))); ("outs", JArr (map json_of_pe (ps_outs s)));
+          ("isg", els FourCC_ISG1); ("osg", els FourCC_OSG1); ("psg", els FourCC_PSG1)]
+  | None => JNull
+  end.
+
+Definition json_of_sig_result (r : option psv_info * option string) : list (string * json) :=
+  [("sig", match snd r with
+           | None => JObj [("ok", JBool true)]
+           | Some e => JObj [("ok", JBool false); ("err", JStr e)]
+           end);
+   ("psv", match fst r with
+           | Some i => JObj [("stage", JNum (psv_stage i)); ("sig_in", JNum (psv_sig_in i)); ("sig_out", JNum (psv_sig_out i));
+                             ("resources", JNum (psv_nres i)); ("entry", jnums (psv_entry_name i)); ("threads", jnums (psv_threads i))]
+           | None => JNull
+           end)].
+
+(* interface parts only: the verified container parser, the program header, the structural walks
+   and the element-level consistency rules (no digest, no bitstream) *)
+Definition do_sig (j : json) : json :=
+  match bytes_field "bytes" j with
+  | Some b =>
+    match parse b with
+    | None => JObj [("ok", JBool false); ("err", JStr "not a canonical DXBC container")]
+    | Some (_, ps) =>
+      let dx := opt_bind (find_part FourCC_DXIL ps) (fun p => parse_program (p_data p)) in
+      JObj ([("ok", JBool true);
+             ("parts", JArr (map (fun p => JArr [JNum (p_fourcc p); JNum (zlen (p_data p))]) ps));
+             ("order_ok", JBool (expected_order (map p_fourcc ps)));
+             ("dxil", json_of_program dx)] ++
+            json_of_sig_result (sig_check ps (match dx with Some a => pg_kind a | None => -1 end)) ++
+            [("sigs", json_of_sigs ps)])
+    end
+  | None => jerr "bad sig job"
+  end.
+
 Definition do_check (j : json) : json :=
   match bytes_field "bytes" j with
   | Some b =>
@@ -236,6 +287,7 @@ Definition entry (j : json) : json :=
     else if String.eqb m "container" then do_container j
     else if String.eqb m "parse" then do_parse j
     else if String.eqb m "check" then do_check j
+    else if String.eqb m "sig" then do_sig j
     else if String.eqb m "hash" then do_hash j
     else if String.eqb m "scalar" then do_scalar j
     else jerr "unknown mode"
